@@ -1,6 +1,6 @@
 /-
 C02, link to Mathlib's polynomial derivative: the closed form `dMonomial` used in the Jacobian
-theorems is the evaluation of `MvPolynomial.pderiv` applied to the rate monomial.
+theorems is the evaluation of `MvPolynomial.pderiv` applied to the rate rateMonomial.
 -/
 import Micm.Lemmas.Jacobian
 import Mathlib.Algebra.MvPolynomial.PDeriv
@@ -10,19 +10,19 @@ open MvPolynomial
 
 variable {K : Type} [CommRing K]
 
-/-- the rate monomial `Π_{l ∈ rs} X_l` as a multivariate polynomial -/
+/-- the rate rateMonomial `Π_{l ∈ rs} X_l` as a multivariate polynomial -/
 noncomputable def monomialPoly (K : Type) [CommRing K] (rs : List Nat) : MvPolynomial Nat K :=
   (rs.map fun i => (X i : MvPolynomial Nat K)).prod
 
 theorem eval_monomialPoly (y : Nat → K) (rs : List Nat) :
-    eval y (monomialPoly K rs) = monomial y rs := by
-  unfold monomialPoly monomial
+    eval y (monomialPoly K rs) = rateMonomial y rs := by
+  unfold monomialPoly rateMonomial
   induction rs with
   | nil => simp
   | cons a l ih => simp [ih]
 
 /-- `dMonomial y rs j` is the value at `y` of the formal partial derivative `∂/∂X_j` of the rate
-    monomial (Mathlib's `MvPolynomial.pderiv`) -/
+    rateMonomial (Mathlib's `MvPolynomial.pderiv`) -/
 theorem eval_pderiv_monomialPoly (y : Nat → K) (rs : List Nat) (j : Nat) :
     eval y (pderiv j (monomialPoly K rs)) = dMonomial y rs j := by
   rw [dMonomial_eq_leibniz]
@@ -33,7 +33,7 @@ theorem eval_pderiv_monomialPoly (y : Nat → K) (rs : List Nat) (j : Nat) :
     rw [List.map_cons, List.prod_cons, Derivation.leibniz, dMonomialLeibniz, ← ih, pderiv_X]
     have hl : eval y ((l.map fun i => (X i : MvPolynomial Nat K)).prod) = (l.map y).prod := by
       have := eval_monomialPoly y l
-      unfold monomialPoly monomial at this
+      unfold monomialPoly rateMonomial at this
       exact this
     by_cases h : a = j
     · subst h
